@@ -268,6 +268,24 @@ def rule_update_formulas(repo, rep):
         rep.unknown(R, 'scml._BaseSCML._fit:' + name, site(f, stm[name]),
                     '%s = %s is not in the table of recognised forms'
                     % (name, got))
+  # the scheme runs its max_iter iterations: the best checkpoint is chosen
+  # among all of them
+  Re = 'R-GUARD:scml-no-early-exit'
+  rep.rule(Re, 'the main SCML loop has no early exit (break / return): '
+           'every evaluation checkpoint up to max_iter competes for the '
+           'lowest objective')
+  main = loops[0]
+  inner = [n for n in ast.walk(main) if isinstance(n, (ast.For, ast.While))
+           and n is not main]
+  exits = [b for b in ast.walk(main) if isinstance(b, (ast.Break, ast.Return))
+           and not any(b in list(ast.walk(i)) for i in inner)]
+  if exits:
+    rep.refuted(Re, 'scml._BaseSCML._fit', site(f, exits[0]), 'the loop is '
+                'left early under %s: later checkpoints with a lower '
+                'objective are never evaluated'
+                % astutil.path_condition(main, exits[0]))
+  else:
+    rep.derived(Re, 'scml._BaseSCML._fit', site(f, main))
   dl_def = [v for (n, v) in guards.assignments(f.node, 'delta')
             if v is not None]
   okd = dl_def and isinstance(dl_def[0], ast.Constant) and \
@@ -286,6 +304,7 @@ def check(repo, rep, tier):
   fl = len(rep.floors)
   c03.rule_defassign(repo, rep)
   c17.rule_rng(repo, rep)
+  c17.rule_no_hyper_writes(repo, rep, only=['SCML', 'SCML_Supervised'])
   rep.obs[before:] = [o for o in rep.obs[before:]
                       if o['construct'].startswith(('SCML.', 'SCML_Supervised.'))]
   rep.floors = rep.floors[:fl]
